@@ -222,7 +222,7 @@ theorem C01_nested_update_none_is_plain (cfg : Cfg M K R) (s : CState M R) (id :
     rw [hch, getAndUpdateN_lift]
     dsimp only
     rcases hgau : getAndUpdate cfg.ops (updGet cfg wr) (changeFn cfg.ops wr (fieldUpdater cfg wr) msg) (updSave cfg wr)
-      { st := s, id := icptId cfg id, created := none, idCalls := [], createdCalls := 0 } with ⟨r, c⟩
+      { st := s, id := updKey cfg wr id, created := none, idCalls := [], createdCalls := 0 } with ⟨r, c⟩
     dsimp only
     cases r.err <;> cases r.new <;> simp [eventsOfC]
 
@@ -248,8 +248,8 @@ theorem C01_nested_update_failed_call_frame (cfg : Cfg M K R) (s : CState M R) (
   | none =>
     dsimp only
     simp only [getAndUpdateN, changeFnN_eq]
-    have hf0 := updGet_frame cfg wr { st := s, id := icptId cfg id, created := none, idCalls := [], createdCalls := 0 }
-    rcases hg : updGet cfg wr { st := s, id := icptId cfg id, created := none, idCalls := [], createdCalls := 0 } with ⟨r1, c1⟩
+    have hf0 := updGet_frame cfg wr { st := s, id := updKey cfg wr id, created := none, idCalls := [], createdCalls := 0 }
+    rcases hg : updGet cfg wr { st := s, id := updKey cfg wr id, created := none, idCalls := [], createdCalls := 0 } with ⟨r1, c1⟩
     rw [hg] at hf0
     cases r1 with
     | error e => intro _; exact ⟨rfl, rfl, c1.st, c1.st, hf0.1, hf0.2, Or.inl ⟨rfl, rfl⟩, rfl, rfl⟩
@@ -321,7 +321,7 @@ theorem C01_nested_update_no_lost_update (cfg : Cfg M K R) (s : CState M R) (id 
     (wr : WriteReq M K) (site : Site) (calls : List (COp M K)) :
     (Coll.updateN cfg s id msg wr site calls).1.err = none →
       ∃ old new c1 r2 c2,
-        updGet cfg wr { st := s, id := icptId cfg id, created := none, idCalls := [], createdCalls := 0 } = (.ok old, c1) ∧
+        updGet cfg wr { st := s, id := updKey cfg wr id, created := none, idCalls := [], createdCalls := 0 } = (.ok old, c1) ∧
         changeFn cfg.ops wr (fieldUpdater cfg wr) msg old old = .ok new ∧
         (Coll.updateN cfg s id msg wr site calls).1.val = some new ∧
         updGet cfg wr (if siteReached cfg.ops wr site old then { c1 with st := (Coll.run cfg c1.st calls).2 } else c1) = (r2, c2) ∧
@@ -334,7 +334,7 @@ theorem C01_nested_update_no_lost_update (cfg : Cfg M K R) (s : CState M R) (id 
   | none =>
     dsimp only
     simp only [getAndUpdateN, changeFnN_eq]
-    rcases hg : updGet cfg wr { st := s, id := icptId cfg id, created := none, idCalls := [], createdCalls := 0 } with ⟨r1, c1⟩
+    rcases hg : updGet cfg wr { st := s, id := updKey cfg wr id, created := none, idCalls := [], createdCalls := 0 } with ⟨r1, c1⟩
     cases r1 with
     | error e => intro h; simp at h
     | ok old =>
